@@ -37,6 +37,7 @@ def _rules():
             lambda R, c, rid: preds.rule(R, c, rid, ["is_missing"]),
             lambda R, c, rid: c02.rule_b3(R, c, rid),
             lambda R, c, rid: c02.rule_b4(R, c, rid),
+            lambda R, c, rid: accessors.state_vector_ops(R, c, rid),
         ],
         "squash": [
             lambda R, c, rid: c03.rule_b(R, c, rid),
